@@ -1191,7 +1191,8 @@ class _Simp(_Base):
 
     @staticmethod
     def ok(sp):
-        return sp.gauges is None and sp.nt >= 1 and not sp.self_trace
+        # networks in which a tensor carries a label twice (diagonal_reduce leaves them) are included
+        return sp.gauges is None and sp.nt >= 1
 
     @classmethod
     def okw(cls, sp, p):
@@ -1351,7 +1352,7 @@ class _CompressSimplify(_Simp):
 
     @staticmethod
     def ok(sp):
-        return sp.gauges is None and sp.nt >= 1 and not sp.self_trace
+        return sp.gauges is None and sp.nt >= 1
 
     @staticmethod
     def draw(rng, sp):
@@ -1452,6 +1453,7 @@ def compose(cx, qtn, rng, base, start, names, nsteps, dt, label, first=None):
         params = dict(base, step=step, op=name, history=list(hist), plain=cur.plain, tree=cur.is_tree(), nt_now=cur.nt,
                       zero_value=cur.zero, n_bonds=len(cur.edges()), single=not cur.double,
                       shrinkable=cur.shrinkable() if cur.plain else None, gauges=cur.gauges is not None,
+                      repeated_label=cur.self_trace,
                       **{"p_" + k: v for k, v in _jsonable(p).items()})
         verdict = cx.check(f"{name}: same dense tensor over the same outer labels before and after; promised form holds "
                            f"({label})", params, thunk)
